@@ -119,7 +119,7 @@ def run(ctx):
         p0, q1, r2 = qsyms('a0'), qsyms('a1'), qsyms('a2')
         if k not in ('ft', 'ftapply', 'aa', 'mft'):
             try: p = rs.only()
-            except AssertionError as e:
+            except (AssertionError, KeyError, ValueError, TypeError, IndexError, ZeroDivisionError, AttributeError) as e:
                 ctx.ob(key + '/paths', False, 'branch-free', w, 'one path', str(e)); continue
         if k == 'mul':
             vec_eq(ctx, key, p.ret, hamilton(p0, q1), 'alg=: p*q is the Hamilton product', w)
